@@ -8,6 +8,8 @@ import (
 
 	"asverif/internal/gf"
 	"asverif/internal/load"
+
+	"golang.org/x/tools/go/cfg"
 )
 
 func init() {
@@ -45,6 +47,7 @@ func runC04(c *Ctx) {
 	fn, an := r.Fn, r.An
 	info := r.FI.Pkg.TypesInfo
 	c.Floor("C04.1-create-sites", len(r.Creates), 1)
+	c.everyObservedPodIsPlaced(r, "C04.5-every-observed-pod-is-placed")
 	for i, cr := range r.Creates {
 		arg := cr.Args[1]
 		name := siteName(r.FI.Obj.Name(), "CreateStatefulPod", i, arg)
@@ -138,5 +141,93 @@ func (c *Ctx) storeClassesAs(r *Reconcile, prefix string) {
 		if len(o.Rule) > 5 && o.Rule[:5] == "C03.1" {
 			o.Rule = prefix + o.Rule[5:]
 		}
+	}
+}
+
+// everyObservedPodIsPlaced: in the loop over the observed pods, an iteration goes on to the next pod
+// without having stored the pod in the wanted slice or appended it to the condemned slice only
+// when the pod's name gives no ordinal (getOrdinal < 0). A pod that is neither wanted nor condemned
+// is invisible to the rest of the reconcile: its ordinal looks vacant and a second pod is created for it.
+func (c *Ctx) everyObservedPodIsPlaced(r *Reconcile, rule string) {
+	fn, an := r.Fn, r.An
+	info := r.FI.Pkg.TypesInfo
+	var census *ast.RangeStmt
+	ast.Inspect(r.FI.Decl.Body, func(n ast.Node) bool {
+		if rs, ok := n.(*ast.RangeStmt); ok && census == nil {
+			if id, ok := ast.Unparen(rs.X).(*ast.Ident); ok && info.ObjectOf(id) == info.ObjectOf(r.Pods) {
+				census = rs
+			}
+		}
+		return true
+	})
+	if census == nil {
+		c.Fail("loop over the observed pods not found")
+		return
+	}
+	cell := loopCell(census)
+	body := loopBlock(fn, census, cfg.KindRangeBody)
+	head := loopHead(fn, census)
+	if cell == nil || body == nil || head == nil || len(body.Nodes) == 0 {
+		c.Fail("observed-pods loop: cell / body / head not resolved")
+		return
+	}
+	cellKey := fn.Term(cell).Key()
+	// placements of the iteration's pod
+	var places []ast.Node
+	ast.Inspect(census.Body, func(n ast.Node) bool {
+		as, ok := n.(*ast.AssignStmt)
+		if !ok || len(as.Lhs) != 1 || len(as.Rhs) != 1 {
+			return true
+		}
+		if id := rootIdent(as.Lhs[0]); id != nil {
+			switch info.ObjectOf(id) {
+			case r.W:
+				if _, isIdx := ast.Unparen(as.Lhs[0]).(*ast.IndexExpr); isIdx && fn.Term(as.Rhs[0]).Key() == cellKey {
+					places = append(places, as)
+				}
+			case r.K:
+				if call, ok := as.Rhs[0].(*ast.CallExpr); ok {
+					if fid, _ := call.Fun.(*ast.Ident); fid != nil && fid.Name == "append" {
+						for _, x := range call.Args[1:] {
+							if fn.Term(x).Key() == cellKey {
+								places = append(places, as)
+							}
+						}
+					}
+				}
+			}
+		}
+		return true
+	})
+	c.Floor(rule+"-placements", len(places), 2)
+	aU := fn.FromUntil(body.Nodes[0], an.In[body.Index], places...)
+	name := r.FI.Obj.Name() + ": observed-pods loop iteration"
+	noOrd := c.Want(fn, census.Body.Pos(), "getOrdinal($1) < 0", cell)
+	n := 0
+	for _, b := range fn.CFG.Blocks {
+		if !b.Live {
+			continue
+		}
+		for i, sx := range b.Succs {
+			if sx != head || b == head {
+				continue
+			}
+			es := aU.EdgeStates(b)
+			if i >= len(es) || !es[i].Reachable() {
+				continue
+			}
+			n++
+			c.Implies(es[i], noOrd, rule, fmt.Sprintf("%s back-edge[%d]", name, n-1), census.Pos())
+		}
+	}
+	// leaving the loop from inside an iteration (break/return) is a skip too
+	ast.Inspect(census.Body, func(x ast.Node) bool {
+		if ret, ok := x.(*ast.ReturnStmt); ok && aU.StateBefore(ret).Reachable() {
+			c.Bad(rule, name+": return", ret.Pos(), "the loop over the observed pods can be left before the pod of the iteration is placed")
+		}
+		return true
+	})
+	if n == 0 {
+		c.OK(rule, name, census.Pos(), "no iteration ends without the pod having been stored in the wanted slice or appended to the condemned slice")
 	}
 }
